@@ -41,6 +41,8 @@ def ex(rng, aliases, depth=0):
         return f'case when {bex(rng, aliases, depth + 2)} then {ex(rng, aliases, depth + 1)} else {ex(rng, aliases, depth + 1)} end'
     if r < 0.85:
         return f'{rng.choice(aliases)}.{rng.choice(COLS)}'
+    if r < 0.89:
+        return 'null'            # the NULL literal wherever an operand may stand (x = null is not x is null)
     return str(rng.randint(0, 3))
 
 
